@@ -80,13 +80,13 @@ theorem share_consNames {c : Core.Term} {st : CompileState} {n : Nat} (hi : Iner
 
 /-- the consumer returned by `share` is related to the same stack, with the same bound -/
 theorem share_rel {c : Core.Term} {st : CompileState} {n : Nat} {k : Fun.Stack} {ρ0 : CEnv}
-    (hr : CRel GP q n k c ρ0) (hcn : ConsNames c st n)
+    (hr : CRel (GP p) q n k c ρ0) (hcn : ConsNames c st n)
     (hlift : ∀ d ∈ (share c st).2.liftedStatements, d ∈ q.defs) :
-    CRel GP q n k (share c st).1 ρ0 ∧ ConsNames (share c st).1 (share c st).2 n := by
+    CRel (GP p) q n k (share c st).1 ρ0 ∧ ConsNames (share c st).1 (share c st).2 n := by
   have hsub : ∀ x ∈ st.usedVars, x ∈ (share c st).2.usedVars := used_sub_of_fresh (fresh_share c st)
   refine ⟨?_, share_consNames hr.inert hcn⟩
   cases hr with
-  | mk hcv hk hi hb =>
+  | mk hcv hk hi hb hty =>
     by_cases hmu : ∃ pc v ty s, c = .mu pc v ty s
     · obtain ⟨pc, v, ty, s, rfl⟩ := hmu
       have hpc : pc = .cns := by
@@ -110,7 +110,7 @@ theorem share_rel {c : Core.Term} {st : CompileState} {n : Nat} {k : Fun.Stack} 
         intro y hy
         obtain ⟨h1, h2⟩ := List.mem_filter.1 hy
         exact hb y (mem_tfv_mu_of ((hmem y).1 h1) (by simpa using h2))
-      refine .mk (cv := .mutilde ρ0 v (.call _ (bindingsToArgs (tfvStmt s [])) ty)) rfl ?_ trivial ?_
+      refine .mk (cv := .mutilde ρ0 v (.call _ (bindingsToArgs (tfvStmt s [])) ty)) rfl ?_ trivial ?_ hty
       · exact KRel.shared (d := ⟨⟨(freshName st.usedLabels ("share_" ++ st.currentLabel ++ "_")).1, 0⟩,
           tfvStmt s [], s⟩) (hlift _ (by simp)) rfl hk hbd (.refl _ _)
       · intro y hy
@@ -153,9 +153,9 @@ theorem share_rel {c : Core.Term} {st : CompileState} {n : Nat} {k : Fun.Stack} 
         intro y hy
         obtain ⟨h1, h2⟩ := List.mem_filter.1 hy
         exact hb y (hcut y h1 (by simpa using h2))
-      have hk1 : KRel GP q n k (.mutilde ρ0 ⟨(freshVar st).1, 0⟩ (.cut (coreGetType c)
+      have hk1 : KRel (GP p) q n k (.mutilde ρ0 ⟨(freshVar st).1, 0⟩ (.cut (coreGetType c)
           (.var .prd ⟨(freshVar st).1, 0⟩ (coreGetType c)) c)) :=
-        KRel.eta (.mk hcv hk hi hb) hx0 hbd1 (.refl _ _)
+        KRel.eta (.mk hcv hk hi hb hty) hx0 hty hbd1 (.refl _ _)
       have hmem : ∀ y, y ∈ tfvStmt (.call
           ⟨(freshName (freshVar st).2.usedLabels
             ("share_" ++ (freshVar st).2.currentLabel ++ "_")).1, 0⟩
@@ -176,7 +176,7 @@ theorem share_rel {c : Core.Term} {st : CompileState} {n : Nat} {k : Fun.Stack} 
         obtain ⟨h1, h2⟩ := List.mem_filter.1 hy
         exact hb y (hcut y ((hmem y).1 h1) (by simpa using h2))
       refine .mk (cv := .mutilde ρ0 ⟨(freshVar st).1, 0⟩ (.call _ (bindingsToArgs _) (coreGetType c)))
-        rfl ?_ trivial ?_
+        rfl ?_ trivial ?_ hty
       · exact KRel.shared (d := ⟨⟨(freshName (freshVar st).2.usedLabels
             ("share_" ++ (freshVar st).2.currentLabel ++ "_")).1, 0⟩,
           tfvStmt (.cut (coreGetType c) (.var .prd ⟨(freshVar st).1, 0⟩ (coreGetType c)) c) [],
@@ -196,9 +196,9 @@ theorem share_rel {c : Core.Term} {st : CompileState} {n : Nat} {k : Fun.Stack} 
 
 /-- `if leaf then (c, st) else share c st` -/
 theorem shareIf_rel {c : Core.Term} {st : CompileState} {n : Nat} {k : Fun.Stack} {ρ0 : CEnv}
-    (b : Bool) (hr : CRel GP q n k c ρ0) (hcn : ConsNames c st n)
+    (b : Bool) (hr : CRel (GP p) q n k c ρ0) (hcn : ConsNames c st n)
     (hlift : ∀ d ∈ (if b = true then (c, st) else share c st).2.liftedStatements, d ∈ q.defs) :
-    CRel GP q n k (if b = true then (c, st) else share c st).1 ρ0 ∧
+    CRel (GP p) q n k (if b = true then (c, st) else share c st).1 ρ0 ∧
       ConsNames (if b = true then (c, st) else share c st).1
         (if b = true then (c, st) else share c st).2 n := by
   cases b
